@@ -33,6 +33,9 @@ def run(ctx):
     ctx.rule("R02-5", "wait_fg_job: status written only from ws.get_status() under pid == *pids.last(); loop exits "
                       "are {ECHILD, waitpid error, count_waited >= count_child}; counter increments exactly under "
                       "fg-child and not continued; get_status = exit code else 128+signal")
+    ctx.rule("R02-8", "statuses can be collected at all: main gives SIGCHLD an explicit disposition (SIG_DFL or the handler) "
+                      "before anything runs a command - an inherited SIG_IGN makes the kernel reap children itself, "
+                      "waitpid() fails with ECHILD and every status reads 0 (bin crate)")
     ctx.rule("R02-7", "wait_fg_job identifies the stages by pid, not by process group: its waitpid target is -1 (or a pid "
                       "from `pids`); membership is decided against `pids`, so a stage that changes its group is still "
                       "awaited")
@@ -82,6 +85,8 @@ def run(ctx):
                        key="R02-3|%s|%s %s" % (body.path, o["id"], o["desc"]), crate=crate.kind,
                        detail="the reader of that pipe never sees EOF" if bad else None)
         fork_rule(ctx, crate, body)
+        if crate.kind == "bin":
+            sigchld_rule(ctx, crate, "R02-8")
         wait_fg_rules(ctx, crate, wj)
         status_const_rule(ctx, crate)
 
@@ -403,3 +408,32 @@ def fork_rule(ctx, crate, body):
     ctx.ob("R02-6", body.path, "every maximal path of the child ends in process::exit (%d ends)" % len(ends),
            bool(ends) and not bad, key="R02-6|%s|child-ends" % body.path, where=body.loc(bad[0]) if bad else None,
            crate=crate.kind)
+
+
+SIGCHLD = 17    # Linux; the value the libc crate gives the constant in this build
+RUNNERS = ("run_script", "run_command_line", "run_procs_for_non_tty", "read_line", "run_procs")
+
+
+def sigchld_rule(ctx, crate, rule):
+    b = crate.fn("main")
+    if not ctx.require(b is not None, rule, "%s|anchor" % rule, "main not found"):
+        return
+    ctx.analysed(b)
+    sets = []
+    for bb, t, c in b.calls():
+        if last_seg(c) == "signal" and "libc" in c:
+            a = b.call_args(bb)
+            if len(a) == 2 and mir.const_int(a[0]) == SIGCHLD and mir.const_int(b.expand_vars(strip_sites(a[1]))) != 1:
+                sets.append(bb)        # anything but SIG_IGN (1)
+        if last_seg(c) in ("sigaction", "setup_sigchld_handler") and not sets:
+            pass
+    runners = [(bb, last_seg(c)) for bb, t, c in b.calls() if last_seg(c) in RUNNERS]
+    if not ctx.require(len(runners) >= 4, rule, "%s|main|runners" % rule,
+                       "expected the four ways main runs commands (script, -c, non-tty, read_line), found %d" % len(runners), "main"):
+        return
+    for bb, name in runners:
+        ok = any(b.dominates(s_, bb) for s_ in sets)
+        ctx.ob(rule, "main", "signal(SIGCHLD, SIG_DFL | handler) dominates %s" % name, ok,
+               key="%s|main|sigchld-disposition|%s" % (rule, name), where=b.loc(bb), crate=crate.kind,
+               detail=None if ok else "started by a parent that ignores SIGCHLD (some daemons, `trap '' CHLD`, Python with "
+               "SIGCHLD ignored), the shell reports status 0 for every command: `false && echo x` prints x")
